@@ -2295,24 +2295,26 @@ class Parser:
         Returns:
             HolographicValue if this is a holographic pattern, None otherwise
         """
-        # Quick check: must have CONSTRAINT token to be holographic
-        has_constraint = any(t.type == TokenType.CONSTRAINT for t in token_slice)
-        if not has_constraint:
-            return None
-
+        # Quick check: must have a CONSTRAINT token outside nested brackets to be holographic
+        # (a ∧ inside a nested list, e.g. [K::[a∧b]], belongs to that list's item)
         # Additional heuristic: holographic patterns don't have commas at depth=0
         # This distinguishes [a, b∧c] (list with expression) from ["x"∧REQ] (holographic)
         # Check for commas outside nested brackets
+        has_constraint = False
         depth = 0
         for token in token_slice:
             if token.type == TokenType.LIST_START:
                 depth += 1
             elif token.type == TokenType.LIST_END:
                 depth -= 1
+            elif token.type == TokenType.CONSTRAINT and depth == 1:
+                has_constraint = True
             elif token.type == TokenType.COMMA and depth == 1:
                 # Comma at depth 1 means inside outer [], outside nested []
                 # This is a regular list, not holographic
                 return None
+        if not has_constraint:
+            return None
 
         # Reconstruct raw pattern string from tokens for parse_holographic_pattern()
         raw_pattern = self._reconstruct_pattern_from_tokens(token_slice)
